@@ -396,9 +396,21 @@ def setCfg (v : Json) : Json → Json
   | .obj kvs => .obj (setKey cfgKey v kvs)
   | j => j
 
-/-- `restoreOldCfg` -/
+/-- the `config` key is present in `rawCfg` (`_, hadCfgKey := rawCfg[rawConfigKey]`) -/
+def hasCfgKey : Json → Bool
+  | .obj kvs => (lookup cfgKey kvs).isSome
+  | _ => false
+
+/-- `delete(rawCfg, rawConfigKey)` -/
+def eraseCfg : Json → Json
+  | .obj kvs => .obj (eraseKey cfgKey kvs)
+  | j => j
+
+/-- `restoreOldCfg`: if the key was not there before the mutation (after `DELETE /config/`)
+    it is removed again; otherwise it gets the last loaded configuration back.
+    `s` is the state before the mutation, `root` the mutated tree. -/
 def restore (s : State) (root : Json) : State :=
-  { s with rawCfg := setCfg (encodeOf s.rawCfgJSON) root }
+  { s with rawCfg := if hasCfgKey s.rawCfg then setCfg (encodeOf s.rawCfgJSON) root else eraseCfg root }
 
 /-- the part of `changeConfig` after a successful mutation that produced `root` -/
 def commit (env : Env) (force : Bool) (s : State) (root : Json) : State × ChangeRes :=
